@@ -203,8 +203,12 @@ def build_many(specs):
             hsrcs = sp.get("sources") or [os.path.join(VERIF, "harness", name + ".cpp")]
             hobjs = []
             for src in hsrcs:
+                sflags = flags
+                if isinstance(src, (list, tuple)):   # (path, [extra flags for this source only])
+                    src, xf = src[0], list(src[1])
+                    sflags = flags + xf
                 o = os.path.join(BUILD, variant, "harness", name, os.path.basename(src).rsplit(".", 1)[0] + ".o")
-                jobs[o] = (src, o, flags); hobjs.append(o)
+                jobs[o] = (src, o, sflags); hobjs.append(o)
             for j in ljobs:
                 jobs[j[1]] = j
             objs = hobjs + [ej[1]] + [j[1] for j in ljobs] + list(sp.get("extra_objs", ()))
